@@ -175,15 +175,15 @@ def body_formats(case, rec):
         src, mp = write_inputs(case, d / "in")
         prefix = case.get("prefix", "SUPER_")
         results = {}
-        code, _ = run_in(d, src, mp, "fasta", prefix, "agp")
+        code, _ = run_in(d, src, mp, "fasta", prefix, "agp", fasta_buffer=case.get("fasta_buffer"))
         if code != 0:
             rec.count("baseline_failed")
             return
         results["fasta"] = d / "out_fasta"
-        cache = Path(str(src) + ".agp")
+        # the same assembly as AGP: written from the reference run-length encoding of the FASTA (not from the indexer's cache)
         as_agp = d / "in2" / "asm.agp"
         as_agp.parent.mkdir()
-        shutil.copy(cache, as_agp)
+        as_agp.write_text(remap.input_text({"input": fasta_input_plain(case["fasta"])}, "agp"))
         as_tpf = d / "in2" / "asm.tpf"
         for k in (1, 2):
             r = remap.run_cli_inprocess([as_agp, "-o", d / "in2" / f"conv{k}.tpf"], script="asm_format")
@@ -363,7 +363,7 @@ SUBS = [
         budget={"quick": 96, "thorough": 1500}, desc="PYTHONHASHSEED x cwd / relative-absolute arguments (subprocess)"),
     Sub("inprocess", kind="hyp", strategy=inprocess_cases, body=body_inprocess, shrink=False,
         budget={"quick": 160, "thorough": 3000}, desc="cache cold / warm / stale, stream buffer, interleaved invocations in one process"),
-    Sub("formats", kind="hyp", strategy=tagged_fasta_case, body=body_formats, shrink=False,
+    Sub("formats", kind="hyp", strategy=lambda: st.builds(lambda c, b: dict(c, fasta_buffer=b), tagged_fasta_case(), st.sampled_from([None, 1, 5, 10, 60])), body=body_formats, shrink=False,
         budget={"quick": 160, "thorough": 3000}, desc="input as FASTA vs AGP vs TPF"),
     Sub("asm_format", kind="hyp", strategy=asm_format_cases, body=body_asm_format, shrink=False,
         budget={"quick": 64, "thorough": 1000}, desc="asm-format (AGP/TPF/STR/REPR output, --qc-overlaps report) under different hash seeds and working directories"),
